@@ -13,8 +13,8 @@ RULE = ("Hypothesis composite histories of 6-14 simulations on one instance (who
         "COPY+DELETE / MODIFY+COPY / reaction+COPY(+DELETE) in one simulation; after every simulation DUMP -all is compared with a "
         "reference map (kind, number) -> content id built from the documented semantics; a history stops at the first simulation "
         "whose calculation fails. Excluded by construction (counted): two definitions of one kind sharing a number in one "
-        "simulation, EXCHANGE_MODIFY -component by formula, failing simulations that carry COPY/DELETE/RUN_CELLS (three known "
-        "findings, replays/C14/known). Non-trivial = at least 5 simulations checked, at "
+        "simulation (known finding, replays/C14/known), failing simulations that carry COPY/DELETE/RUN_CELLS (outside the "
+        "precondition). Non-trivial = at least 5 simulations checked, at "
         "least one COPY that created an entry, one DELETE that removed an entry, and entries of >= 2 kinds; distinct by SHA-256 "
         "of the case")
 ASSUMPTIONS = [
@@ -26,6 +26,8 @@ ASSUMPTIONS = [
     "components are compared for elements with an aqueous primary master species other than H and O (the list is built that way by "
     "design; exchange/surface sites, H, O and charge are never listed)",
     "constructs whose result no document fixes are not generated (see vp/c14gen.py docstring)",
+    "the RUN_CELLS twins are restored from the DUMP text; that the restored twin holds the same components is checked first "
+    "(clause twin_restore_components, added for the fixed EXCHANGE_RAW read-back defect, /repo ec3a664c)",
 ]
 TECHNIQUE = "model-based stateful property testing (Hypothesis): engine store after every simulation vs. reference map; RUN_CELLS vs USE/SAVE on twin instances"
 LEVEL_TEXT = ("Exploration: thousands of generated operation histories; after each of their simulations the complete store (key set, "
@@ -284,6 +286,18 @@ def check_mixcons(i, c, prev, cur):
     return True
 
 
+def component_names(ent):
+    out = set()
+    for opt in ("component", "charge_component", "solid_solution"):
+        v = ent.get(opt)
+        if isinstance(v, dict):
+            for name, sub in v.items():
+                out.add((opt, name))
+                if opt == "solid_solution" and isinstance(sub, dict) and isinstance(sub.get("component"), dict):
+                    out.update(("ss_component", name, c) for c in sub["component"])
+    return out
+
+
 def check_twin(i, c, op, prev, cur, ctx):
     """RUN_CELLS -cells n == USE of every reactant numbered n + SAVE back to n, both on twins restored from the RAW text"""
     B = fresh_instance()
@@ -293,6 +307,15 @@ def check_twin(i, c, op, prev, cur, ctx):
             if T.run_string(prev.text) != 0:
                 ctx.event("twin_restore_failed")
                 return False
+        # precondition of the comparison: the restored twin holds the same reactants (names of components / solid solutions)
+        ob0 = Obs(B)
+        for key in sorted(prev.raw):
+            if key not in ob0.parsed:
+                raise Violation("twin_restore_components", "simulation %d: %s %d is missing after reading the RAW text back" % (i, key[0], key[1]))
+            a, b = component_names(prev.parsed[key]), component_names(ob0.parsed[key])
+            if a != b:
+                raise Violation("twin_restore_components", "simulation %d: %s %d has components %r, after reading its RAW text back %r" % (
+                    i, key[0], key[1], sorted(a), sorted(b)))
         rb = B.run_string(G.render(op, prev.parsed))
         rc = C.run_string(G.explicit_cells(c["cells"]))
         if rb != 0 or rc != 0:
@@ -351,9 +374,6 @@ def check_case(case, ctx):
             except G.OutOfDomain as e:
                 raise Discard("out_of_domain")
             text = G.render(op, prev.parsed)
-            for md in op.get("mods", []):
-                if G.mod_plan(md, prev.parsed.get((md["kind"], G.num(md["n"]))))["excluded"]:
-                    ctx.event("excluded_by_construction:exchange_modify_component_by_formula")
             rc = I.run_string(text)
             if plan["expect_error"] and "resync" in plan["flags"]:
                 cur = Obs(I)
